@@ -255,6 +255,11 @@ func checkC12(cx *Ctx, r *Report) {
 	add := func(key string, ls LabelSet, n int, allow, req []string, unch bool) {
 		sinks = append(sinks, sink{key, ls, n, allow, req, unch})
 	}
+	if lsc, sc := vf.FieldStoreSources("samlp.StatusCodeType", "Value"); len(sc) > 0 {
+		r.checkSources("R-VFG", "attr:StatusCode.Value", w.InstrPos(sc[0]), vf.Deep(lsc), []string{"global:provider.StatusCodeSuccess"}, []string{"global:provider.StatusCodeSuccess"}, true)
+	} else {
+		r.Fail("R-VFG", "attr:StatusCode.Value", "", "the answer gets no status code")
+	}
 	cx.checkStoresUnconditional(r, "R-MUST", "attr", vf, []fieldSink{
 		{"samlp.ResponseType", "InResponseTo", nil, []string{q + ".Id"}, true, ""},
 		{"saml.SubjectConfirmationDataType", "InResponseTo", nil, []string{q + ".Id"}, true, ""},
